@@ -18,7 +18,9 @@ TraceSkip == SkipStep /\ UNCHANGED vars
 TAppend == IsEvent("append") /\ Strict /\ Append_(Ev.list, Ev.payload, Ev.fsize) /\ UNCHANGED hist
 TView == IsEvent("view") /\ Strict /\ View(Ev.off, Ev.size, Ev.res) /\ UNCHANGED hist
 TReadAt == IsEvent("readat") /\ Strict /\ ReadAt(Ev.off, Ev.n, Ev.got, Ev.nret, Ev.err) /\ UNCHANGED hist
-TStream == IsEvent("stream") /\ Strict /\ Ev.err = "" /\ Stream(Ev.off, Ev.size, Ev.got) /\ UNCHANGED hist
+TStream == /\ IsEvent("stream") /\ Ev.err = "" /\ UNCHANGED hist
+           /\ \/ Strict /\ Stream(Ev.off, Ev.size, Ev.got)
+              \/ Deviate("C17-stream-skips-holes") /\ StreamDev(Ev.off, Ev.size, Ev.got)
 TCompact == IsEvent("compact") /\ Strict /\ Compact(Range(Ev.kept), Range(Ev.garbage)) /\ UNCHANGED hist
 TManifestize == IsEvent("manifestize") /\ Strict /\ Ev.err = "" /\ Reorganize(Ev.res) /\ UNCHANGED hist
 TNest == IsEvent("nest") /\ Strict /\ Ev.err = "" /\ Reorganize(Ev.res) /\ UNCHANGED hist
